@@ -107,13 +107,20 @@ def needle (cfg : Cfg) : Option Nat :=
 
 def httpSet (cfg : Cfg) : List Nat := if cfg.2.2 then Gen.C18.httpAllC else Gen.C18.http1C
 
-def reduce (cfg : Cfg) (offers : List Nat) : List Nat :=
-  let n := match needle cfg with
-    | some x => if x ∈ offers then [x] else []
-    | none => []
+/-- `[needle]` if the needle is offered -/
+def needleList (cfg : Cfg) (offers : List Nat) : List Nat :=
+  match needle cfg with
+  | some x => if x ∈ offers then [x] else []
+  | none => []
+
+/-- `[a]` for the first HTTP protocol `a` among the offers -/
+def firstList (cfg : Cfg) (offers : List Nat) : List Nat :=
   match firstIn (httpSet cfg) offers with
-  | some a => if a ∈ n then n else n ++ [a]
-  | none => n
+  | some a => [a]
+  | none => []
+
+def reduce (cfg : Cfg) (offers : List Nat) : List Nat :=
+  needleList cfg offers ++ (firstList cfg offers).filter fun a => !(needleList cfg offers).contains a
 
 /-! ### what is checked for every table entry (one kernel pass) -/
 
